@@ -258,9 +258,144 @@ fn check_type(op: &Ops, thorough: bool) -> (TypeStats, Vec<Found>) {
     (st, found)
 }
 
+/// The in-crate wire types reachable through ethercrab's public API, against layouts transcribed by
+/// hand from the ETG tables their documentation cites. Returns (buffers evaluated, findings).
+fn in_crate_types() -> (u64, Vec<Found>) {
+    use ethercrab::{AlStatusCode, EtherCrabWireRead, EtherCrabWireWrite, ObjectDescriptionListQuery, ObjectDescriptionListQueryCounts, SubDeviceIdentity, SubDeviceState};
+    let mut found: Vec<Found> = Vec::new();
+    let mut n = 0u64;
+    let mut add = |clause: &str, ty: &str, msg: String| {
+        let sig = format!("{} [in-crate {}]", clause, ty);
+        if !found.iter().any(|f| f.sig == sig) {
+            found.push(Found { sig, msg });
+        }
+    };
+    // SubDeviceState: ETG1000.6 table 9, one byte, unknown values kept
+    for b in 0..=255u8 {
+        n += 1;
+        let want = match b {
+            0 => SubDeviceState::None,
+            1 => SubDeviceState::Init,
+            2 => SubDeviceState::PreOp,
+            3 => SubDeviceState::Bootstrap,
+            4 => SubDeviceState::SafeOp,
+            8 => SubDeviceState::Op,
+            o => SubDeviceState::Other(o),
+        };
+        match guarded(|| SubDeviceState::unpack_from_slice(&[b, 0xee])) {
+            Ok(Ok(v)) if v == want => {
+                let mut out = [0xa5u8; 2];
+                match guarded(|| v.pack_to_slice(&mut out).map(|s| s.to_vec())) {
+                    Ok(Ok(p)) if p == [b] && out[1] == 0xa5 => {}
+                    o => add("encode-wrong", "SubDeviceState", format!("{:?} packs as {:?} (buffer {:02x?}), expected [{:02x}]", v, o, out, b)),
+                }
+            }
+            o => add("decode-wrong", "SubDeviceState", format!("byte {:#04x} decodes as {:?}, expected {:?}", b, o, want)),
+        }
+    }
+    if !matches!(guarded(|| SubDeviceState::unpack_from_slice(&[])), Ok(Err(WireError::ReadBufferTooShort))) {
+        add("short-buffer-wrong-error", "SubDeviceState", "empty buffer is not ReadBufferTooShort".into());
+    }
+    // AlStatusCode: ETG1000.6 table 11, u16 little endian, unknown values kept; every 16 bit value
+    let spot: &[(u16, AlStatusCode)] = &[
+        (0x0000, AlStatusCode::NoError),
+        (0x0001, AlStatusCode::UnspecifiedError),
+        (0x0011, AlStatusCode::InvalidRequestedStateChange),
+        (0x0012, AlStatusCode::UnknownRequestedState),
+        (0x0013, AlStatusCode::BootstrapNotSupported),
+        (0x0016, AlStatusCode::InvalidMailboxConfiguration2),
+        (0x0017, AlStatusCode::InvalidSyncManagerConfiguration),
+        (0x0018, AlStatusCode::NoValidInputsAvailable),
+        (0x0019, AlStatusCode::NoValidOutputs),
+        (0x0020, AlStatusCode::SubDeviceNeedsColdStart),
+        (0x0021, AlStatusCode::SubDeviceNeedsInit),
+        (0x0022, AlStatusCode::SubDeviceNeedsPreop),
+        (0x7fff, AlStatusCode::Unknown(0x7fff)),
+        (0xffff, AlStatusCode::Unknown(0xffff)),
+    ];
+    let mut decoded: BTreeMap<String, u16> = BTreeMap::new();
+    for v in 0..=u16::MAX {
+        n += 1;
+        match guarded(|| AlStatusCode::unpack_from_slice(&v.to_le_bytes())) {
+            Ok(Ok(code)) => {
+                if let Some((_, want)) = spot.iter().find(|(k, _)| *k == v) {
+                    if code != *want {
+                        add("decode-wrong", "AlStatusCode", format!("{:#06x} decodes as {:?}, expected {:?}", v, code, want));
+                    }
+                }
+                // two different numbers must never decode to the same named code
+                if !matches!(code, AlStatusCode::Unknown(_)) {
+                    if let Some(prev) = decoded.insert(format!("{:?}", code), v) {
+                        add("decode-wrong", "AlStatusCode", format!("{:#06x} and {:#06x} both decode as {:?}", prev, v, code));
+                    }
+                } else if code != AlStatusCode::Unknown(v) {
+                    add("decode-wrong", "AlStatusCode", format!("{:#06x} decodes as {:?}", v, code));
+                }
+            }
+            o => add("decode-fails", "AlStatusCode", format!("{:#06x} decodes as {:?}", v, o)),
+        }
+    }
+    if !matches!(guarded(|| AlStatusCode::unpack_from_slice(&[0x11])), Ok(Err(WireError::ReadBufferTooShort))) {
+        add("short-buffer-wrong-error", "AlStatusCode", "1 byte buffer is not ReadBufferTooShort".into());
+    }
+    // SubDeviceIdentity: four u32 little endian at bytes 0, 4, 8, 12 (ETG1000.6 SII identity)
+    let mut bufs: Vec<[u8; 16]> = vec![[0u8; 16], [0xff; 16], core::array::from_fn(|i| 0x10 + i as u8)];
+    for bit in 0..128 {
+        let mut b = [0u8; 16];
+        b[bit / 8] = 1 << (bit % 8);
+        bufs.push(b);
+    }
+    for b in &bufs {
+        n += 1;
+        let w = |k: usize| u32::from_le_bytes([b[k], b[k + 1], b[k + 2], b[k + 3]]);
+        match guarded(|| SubDeviceIdentity::unpack_from_slice(b)) {
+            Ok(Ok(id)) if id.vendor_id == w(0) && id.product_id == w(4) && id.revision == w(8) && id.serial == w(12) => {}
+            o => add("decode-wrong", "SubDeviceIdentity", format!("{:02x?} decodes as {:?}", b, o)),
+        }
+    }
+    for short in 0..16 {
+        if !matches!(guarded(|| SubDeviceIdentity::unpack_from_slice(&vec![0xffu8; short])), Ok(Err(WireError::ReadBufferTooShort))) {
+            add("short-buffer-wrong-error", "SubDeviceIdentity", format!("{} byte buffer is not ReadBufferTooShort", short));
+        }
+    }
+    // ObjectDescriptionListQuery: ETG1000.6 5.6.3.3.1 list types 1..=5 (0 = quantities is a different API)
+    for b in 0..=255u8 {
+        n += 1;
+        let r = guarded(|| ObjectDescriptionListQuery::unpack_from_slice(&[b]).map(|q| (format!("{:?}", q), q.pack_to_slice(&mut [0u8; 1]).map(|s| s.to_vec()))));
+        let names = ["All", "RxPdoMappable", "TxPdoMappable", "StoredForDeviceReplacement", "StartupParameters"];
+        match (b, r) {
+            (1..=5, Ok(Ok((name, Ok(p))))) if name == names[usize::from(b) - 1] && p == [b] => {}
+            (1..=5, o) => add("decode-wrong", "ObjectDescriptionListQuery", format!("{} decodes/packs as {:?}", b, o)),
+            (_, Ok(Err(WireError::InvalidValue))) => {}
+            (_, o) => add("undefined-enum-value-accepted", "ObjectDescriptionListQuery", format!("{} decodes as {:?}", b, o)),
+        }
+    }
+    // ObjectDescriptionListQueryCounts: five u16 little endian
+    let mut bufs: Vec<[u8; 10]> = vec![[0u8; 10], [0xff; 10], core::array::from_fn(|i| 0x21 + i as u8)];
+    for bit in 0..80 {
+        let mut b = [0u8; 10];
+        b[bit / 8] = 1 << (bit % 8);
+        bufs.push(b);
+    }
+    for b in &bufs {
+        n += 1;
+        let w = |k: usize| u16::from_le_bytes([b[k], b[k + 1]]);
+        match guarded(|| ObjectDescriptionListQueryCounts::unpack_from_slice(b)) {
+            Ok(Ok(c)) if c.all == w(0) && c.rx_pdo_mappable == w(2) && c.tx_pdo_mappable == w(4) && c.stored_for_device_replacement == w(6) && c.startup_parameters == w(8) => {}
+            o => add("decode-wrong", "ObjectDescriptionListQueryCounts", format!("{:02x?} decodes as {:?}", b, o)),
+        }
+    }
+    for short in 0..10 {
+        if !matches!(guarded(|| ObjectDescriptionListQueryCounts::unpack_from_slice(&vec![0u8; short])), Ok(Err(WireError::ReadBufferTooShort))) {
+            add("short-buffer-wrong-error", "ObjectDescriptionListQueryCounts", format!("{} byte buffer is not ReadBufferTooShort", short));
+        }
+    }
+    (n, found)
+}
+
 pub fn c19(tier: &Tier) -> Result<i32, String> {
     let mut rep = Report::new("C19", "exploration", tier);
-    rep.rule = "program domain: every struct/enum of the layout grammar of tools/gen_wire_types.py (all splits of a byte into <= 4 bit fields/gaps in both skip spellings, sub-byte enums and nested structs at every bit offset, all sequences of <= 2 of 17 whole-byte items and <= 3 of 8, 12-field structs, partial last byte, skip fields, repr(packed); enums over u8/u16/u32/i8/i16/i32 x 14 shapes: explicit, implicit, alternatives, default, catch-all and their combinations), compiled with the working tree's derive; value domain per type: product of per-field boundary alphabets (complete when <= cap, else all pairs + one-at-a-time over 3 backgrounds), every value of types <= 2 bytes; buffer domain: those patterns with undeclared bits 0/1/alternating, walking one/zero, every buffer of types <= 2 bytes, every shorter length, over-long with junk; oracle: generated reference construction by declared bit position; non-trivial = every evaluation".into();
+    rep.rule = "program domain: every struct/enum of the layout grammar of tools/gen_wire_types.py (all splits of a byte into <= 4 bit fields/gaps in both skip spellings, sub-byte enums and nested structs at every bit offset, all sequences of <= 2 of 17 whole-byte items and <= 3 of 8, 12-field structs, partial last byte, skip fields, repr(packed); enums over u8/u16/u32/i8/i16/i32 x 14 shapes: explicit, implicit, alternatives, default, catch-all and their combinations), compiled with the working tree's derive; value domain per type: product of per-field boundary alphabets (complete when <= cap, else all pairs + one-at-a-time over 3 backgrounds), every value of types <= 2 bytes; buffer domain: those patterns with undeclared bits 0/1/alternating, walking one/zero, every buffer of types <= 2 bytes, every shorter length, over-long with junk; oracle: generated reference construction by declared bit position; plus the five wire types reachable through ethercrab's public API (SubDeviceState, AlStatusCode: every value; SubDeviceIdentity, ObjectDescriptionListQuery, ObjectDescriptionListQueryCounts: every value / walking bits, short buffers) against layouts transcribed by hand from the ETG tables; non-trivial = every evaluation".into();
     rep.assumptions = vec![
         "the reference computes bit positions from the declared widths and skips alone (Python generator), values are built by plain field construction, never through the derive".into(),
         "struct width <= 128 bits; f32/f64, generics and heapless containers are outside the generated domain".into(),
@@ -318,6 +453,9 @@ pub fn c19(tier: &Tier) -> Result<i32, String> {
             }
         }
     }
+    let (in_crate_n, in_crate_found) = in_crate_types();
+    buffers += in_crate_n;
+    all_found.extend(in_crate_found);
     all_found.sort_by(|a, b| a.sig.cmp(&b.sig));
     for f in &all_found {
         rep.violation(&f.sig, &f.msg, json!({"engine": "c19", "detail": f.msg}));
@@ -330,6 +468,7 @@ pub fn c19(tier: &Tier) -> Result<i32, String> {
     *rep.outcomes.entry("buffer decoded as declared".into()).or_insert(0) += buffers - undefined;
     *rep.outcomes.entry("undefined enum value rejected".into()).or_insert(0) += undefined;
     rep.extra.insert("types".into(), json!(cases.len()));
+    rep.extra.insert("in_crate_types".into(), json!({"types": ["SubDeviceState", "AlStatusCode", "SubDeviceIdentity", "ObjectDescriptionListQuery", "ObjectDescriptionListQueryCounts"], "buffers": in_crate_n}));
     rep.extra.insert("types_with_complete_value_product".into(), json!(complete));
     rep.extra.insert(
         "by_feature".into(),
